@@ -346,6 +346,39 @@ WITNESS_ENDPOINT_ON_CURVE = ([[Fr(0), Fr(1, 2), Fr(1)], [Fr(1), Fr(0), Fr(1)]],
                               [Fr(53, 64), Fr(111, 128), Fr(253, 256), Fr(583, 512)]])
 
 
+def near_miss(rnd):
+    """the curves do NOT meet on [0,1]^2, but the extension of one of them just beyond an end point (parameter 1 + d or
+    -d with 2^-44 < d < 2^-13) crosses the other transversally: the correct answer is the empty 2 x 0 array"""
+    d = Fr(2) ** -rnd.choice([14, 16, 20, 24, 30, 36, 40, 43])
+    beyond_end = rnd.random() < 0.5
+    x_cross = 1 + d if beyond_end else -d
+    kind1 = rnd.choice(["line", "parabola", "cubic"])
+    if kind1 == "line":
+        n1 = [[Fr(0), Fr(1)], [Fr(0), Fr(1, 2)]]                      # y = x / 2
+        y_cross = x_cross / 2
+    elif kind1 == "parabola":
+        n1 = [[Fr(0), Fr(1, 2), Fr(1)], [Fr(0), Fr(0), Fr(1)]]        # y = x^2, x = s
+        y_cross = x_cross * x_cross
+    else:
+        n1 = [[Fr(0), Fr(1, 3), Fr(2, 3), Fr(1)], [Fr(0), Fr(0), Fr(0), Fr(1)]]   # y = x^3, x = s
+        y_cross = x_cross ** 3
+    kind2 = rnd.choice(["line", "parabola"])
+    if kind2 == "line":
+        n2 = [[x_cross, x_cross], [Fr(-1), Fr(2)]]                    # vertical segment through the crossing of the extension
+    else:
+        n2 = [[x_cross + Fr(1, 4), x_cross - Fr(1, 4), x_cross + Fr(1, 4)], [Fr(-1), Fr(1, 2), Fr(2)]]
+        # x(t) = x_cross + 1/4 - t + t^2 touches ... make it cross: shift so that x(1/2) = x_cross exactly
+        n2 = [[x_cross + Fr(1, 2) - Fr(1, 4) * 2, x_cross, x_cross - Fr(1, 2) + Fr(1, 4) * 2], [Fr(-1), Fr(1, 2), Fr(2)]]
+    if kind1 == "cubic" and not net_is_f64(n1):
+        n1 = [[Fr(0), Fr(1, 4), Fr(3, 4), Fr(1)], [Fr(0), Fr(0), Fr(0), Fr(1)]]
+    if rnd.random() < 0.5:
+        n1, n2 = n2, n1
+    if not (net_is_f64(n1) and net_is_f64(n2)):
+        return near_miss(rnd)
+    return {"kind": "near-miss", "tag": "crossing of the extension at parameter %s (d = 2^%d)" %
+            ("1+d" if beyond_end else "-d", -(d.denominator.bit_length() - 1)), "n1": n1, "n2": n2, "planted": None}
+
+
 def all_pairs(rnd, tier="quick", max_deg=8):
     """the generated case list of C02 / C03 (without the zoo); max_deg bounds random and planted degrees"""
     thorough = tier == "thorough"
@@ -361,6 +394,7 @@ def all_pairs(rnd, tier="quick", max_deg=8):
              "n2": [list(r) for r in b], "planted": None} for i, (a, b) in enumerate(WITNESS_BOGUS_TANGENT)]
     out += [planted_tangency(rnd, min(md, 6)) for _ in range(600 if thorough else 160)]
     out += [overlapping_arcs(rnd) for _ in range(300 if thorough else 80)]
+    out += [near_miss(rnd) for _ in range(200 if thorough else 60)]
     return out
 
 
